@@ -400,7 +400,7 @@ int main(int argc, char** argv){
 #ifdef VF_C04
         rep.spaces.push_back("rotation kernel: P in {4,8" + std::string(thorough ? ",6,12" : "") + "} x heights 1.." + std::to_string(maxH) + " x boxes {unit, shifted-3.7, small-far} x 4 particle sets x {double" + (thorough ? ",float" : "") + "} x groupings x {sequential, OpenMP under defer-all schedules (mock runtime)} + linearity");
         for(int h = 1 ; h <= maxH ; ++h) for(int b = 0 ; b < 3 ; ++b) for(int s = 0 ; s < 5 ; ++s){
-            if(rep.timeUp()){ rep.exhaustive = false; return; }
+            if(rep.timeUp()){ rep.cut(); return; }
             if(!mine()) continue;
             evalConfig<double, K4<double,4>, 4>(h, b, s, rep, pg, thorough, ms);
             if(thorough) evalConfig<double, K4<double,6>, 6>(h, b, s, rep, pg, thorough, ms);
@@ -414,13 +414,13 @@ int main(int argc, char** argv){
         }
         // periodic variant (explicit image sum) and target/source variant
         for(int h = 2 ; h <= (thorough ? 4 : 3) ; ++h) for(int b = 0 ; b < 2 ; ++b) for(int s = 1 ; s <= 3 ; ++s) for(long extra = -1 ; extra <= (thorough ? 2 : 1) ; ++extra){
-            if(rep.timeUp()){ rep.exhaustive = false; return; }
+            if(rep.timeUp()){ rep.cut(); return; }
             if(!mine()) continue;
             evalPeriodicNum<double, K4<double,4>, 4>(h, b, s, extra, rep, pg, ms);
             evalPeriodicNum<double, K4<double,8>, 8>(h, b, s, extra, rep, pg, ms);
         }
         for(int h = 1 ; h <= maxH ; ++h) for(int b = 0 ; b < 2 ; ++b) for(int s = 0 ; s < 3 ; ++s){
-            if(rep.timeUp()){ rep.exhaustive = false; return; }
+            if(rep.timeUp()){ rep.cut(); return; }
             if(!mine()) continue;
             evalTsmNum<double, K4<double,4>, 4>(h, b, s, (s+1)%4, rep, pg, ms);
             evalTsmNum<double, K4<double,8>, 8>(h, b, s, (s+2)%4, rep, pg, ms);
@@ -429,7 +429,7 @@ int main(int argc, char** argv){
 #ifdef VF_C05
         rep.spaces.push_back("uniform kernel: order in {4,5,6" + std::string(thorough ? ",3,7,8" : "") + "} x heights 1.." + std::to_string(maxH) + " x boxes x 4 particle sets x {double" + (thorough ? ",float" : "") + "} x groupings (block size 1 = one batch per child group vs single batch) x executors + linearity");
         for(int h = 1 ; h <= maxH ; ++h) for(int b = 0 ; b < 3 ; ++b) for(int s = 0 ; s < 5 ; ++s){
-            if(rep.timeUp()){ rep.exhaustive = false; return; }
+            if(rep.timeUp()){ rep.cut(); return; }
             if(!mine()) continue;
             if(thorough) evalConfig<double, K5<double,3>, 3>(h, b, s, rep, pg, thorough, ms);
             evalConfig<double, K5<double,4>, 4>(h, b, s, rep, pg, thorough, ms);
@@ -444,13 +444,13 @@ int main(int argc, char** argv){
             ms.checkMonotone(rep);
         }
         for(int h = 2 ; h <= (thorough ? 4 : 3) ; ++h) for(int b = 0 ; b < 2 ; ++b) for(int s = 1 ; s <= 3 ; ++s) for(long extra = -1 ; extra <= (thorough ? 2 : 1) ; ++extra){
-            if(rep.timeUp()){ rep.exhaustive = false; return; }
+            if(rep.timeUp()){ rep.cut(); return; }
             if(!mine()) continue;
             evalPeriodicNum<double, K5<double,4>, 4>(h, b, s, extra, rep, pg, ms);
             evalPeriodicNum<double, K5<double,6>, 6>(h, b, s, extra, rep, pg, ms);
         }
         for(int h = 1 ; h <= maxH ; ++h) for(int b = 0 ; b < 2 ; ++b) for(int s = 0 ; s < 3 ; ++s){
-            if(rep.timeUp()){ rep.exhaustive = false; return; }
+            if(rep.timeUp()){ rep.cut(); return; }
             if(!mine()) continue;
             evalTsmNum<double, K5<double,4>, 4>(h, b, s, (s+1)%4, rep, pg, ms);
             evalTsmNum<double, K5<double,6>, 6>(h, b, s, (s+2)%4, rep, pg, ms);
